@@ -4,7 +4,8 @@ package k8s
 // code puts into ListOptions (label selector, limit, continue) has the meaning it has against a real API server -
 // the fake clientset ignores limit and continue.  Lists are served the way the API server serves them: filtered by
 // the label selector OF THAT REQUEST, sorted by name, cut at `limit`, the continue token names the last key returned
-// (it does not remember the selector).
+// (it does not remember the selector); a list with resourceVersion=0 comes from a watch cache that does not have the
+// newest pod yet.
 
 import (
 	"encoding/json"
@@ -78,6 +79,16 @@ func (a *apiServer) serve(w http.ResponseWriter, r *http.Request) {
 			}
 		}
 		sort.Slice(match, func(i, j int) bool { return match[i].Name < match[j].Name })
+		if q.Get("resourceVersion") == "0" && len(match) > 0 {
+			// "any version will do" is answered from the watch cache, which lags behind: the pod created last is not in it yet
+			newest := 0
+			for i := range match {
+				if podOrdinal(match[i].Name) > podOrdinal(match[newest].Name) {
+					newest = i
+				}
+			}
+			match = append(match[:newest:newest], match[newest+1:]...)
+		}
 		l := corev1.PodList{TypeMeta: metav1.TypeMeta{Kind: "PodList", APIVersion: "v1"}}
 		if limit > 0 && len(match) > limit {
 			rest := int64(len(match) - limit)
@@ -91,4 +102,9 @@ func (a *apiServer) serve(w http.ResponseWriter, r *http.Request) {
 		w.WriteHeader(404)
 		_ = json.NewEncoder(w).Encode(&metav1.Status{TypeMeta: metav1.TypeMeta{Kind: "Status", APIVersion: "v1"}, Status: "Failure", Reason: metav1.StatusReasonNotFound, Code: 404, Message: r.Method + " " + r.URL.Path + " is not served by the harness"})
 	}
+}
+
+func podOrdinal(name string) int {
+	n, _ := strconv.Atoi(name[strings.LastIndexByte(name, '-')+1:])
+	return n
 }
